@@ -359,6 +359,37 @@ def closure(R):
     R.ob('C17.closure', 'no module-level state written by package functions', not bad,
          '%s mutates module/class-level state `%s`' % (bad[0][0].qual if bad else '', bad[0][2] if bad else ''),
          func=(bad[0][0] if bad else None), node=(bad[0][1] if bad else None), construct=('global store %s' % bad[0][2]) if bad else '')
+    # deferred work (timers, threads, exit hooks) started for one connection must not find the *next* one when it runs: a
+    # callable that is a bound method of the long-lived WebSocket (or a closure over it) resolves self.state / self.session at
+    # the time it fires - after a reconnect that is the new connection
+    deferred = []
+    seenq = set()
+    for cx in R.types.ctxs.values():
+        fi = cx.func
+        if fi.qual in seenq or fi.module.name.startswith('examples') or fi.module.name in ('persist',):
+            continue
+        seenq.add(fi.qual)
+        for s in own_nodes(fi.node):
+            if not isinstance(s, ast.Call):
+                continue
+            nm = U(s.func).rsplit('.', 1)[-1]
+            if nm not in ('Timer', 'Thread', 'start_new_thread', 'register', 'call_later', 'submit'):
+                continue
+            if nm == 'register' and not U(s.func).startswith('atexit'):
+                continue
+            cand = list(s.args) + [k.value for k in s.keywords if k.arg in ('function', 'target', 'func', 'fn')]
+            for a in cand:
+                own = isinstance(a, ast.Attribute) and U(a.value) == 'self' and fi.cls is not None and fi.cls.qual == WS
+                lazy = isinstance(a, ast.Lambda) or (isinstance(a, ast.Name) and any(
+                    f2.parent is not None and f2.parent.qual == fi.qual and f2.name == a.id for f2 in R.prog.funcs.values()))
+                if own or lazy:
+                    deferred.append((fi, s, U(a)))
+    R.ob('C17.closure', 'no deferred callback bound to the long-lived WebSocket', not deferred,
+         '%s starts deferred work `%s` whose callable `%s` looks up the connection when it fires: a timer / thread armed for one '
+         'connection (and cancelled only on some endings) acts on the session of the next connect()' % (
+             deferred[0][0].qual if deferred else '', U(deferred[0][1])[:60] if deferred else '', deferred[0][2] if deferred else ''),
+         func=(deferred[0][0] if deferred else None), node=(deferred[0][1] if deferred else None),
+         construct=('deferred %s' % deferred[0][2]) if deferred else '')
 
 
 def session(R):
